@@ -58,6 +58,7 @@ def run(ctx: Ctx) -> None:
     pixel_map(ctx, py, rs)
     column_arith(ctx, py, rs)
     windows_and_write_effect(ctx, py, rs)
+    front_door_mirrors(ctx, py, rs)
     busy_flag(ctx, py, rs)
     image_renderer(ctx, py)
     storage_shape(ctx, py)
@@ -933,3 +934,66 @@ def storage_shape(ctx: Ctx, py: PyProgram) -> None:
     for rel, ln, what in found:
         ctx.violation("C15.3/live-sources", key_of(rel, what.split(" changes ")[0], "stale stored copy"), what.replace("the snapshot saver among them", "get_snapshot() among them"), f"{rel}:{ln}")
     ctx.instance("C15.2/storage-shape", "VRAM grid constructions with distinct rows; display-layer methods scanned for stored copies of chip state", n + scanned, 20)
+
+
+def front_door_mirrors(ctx: Ctx, py: PyProgram, rs: RustProgram) -> None:
+    """Only the low nibble of an LCD window address selects chip / register / direction: every address of a window behaves like the
+    window base plus its low nibble.  HD61202Controller.read/write are interpreted whole (helpers and class attributes of the real
+    class included, the pipeline and the chips are logging stand-ins) for mirrored addresses of both windows and compared with the
+    canonical address: same calls into the pipeline / chips, same return value."""
+    from ..pyfacts import ClassHost, _Return
+    mod = py.module(CW_PY)
+    cls = py.need_cls(mod, "HD61202Controller")
+    # the windows: the Rust controller's handles() ranges (the Python bus overlays route a subset of them - a recorded finding - but
+    # the controller object is also driven directly, by the LLAMA bridge and by tools, with any address of the hardware windows)
+    wins = []
+    hf = rs.fn(LCD_RS, "LcdController::handles")
+    for nd in walk(hf.body):
+        if nd.get("k") == "range" and nd.get("lo") is not None and nd.get("hi") is not None:
+            ev_ = rs.evaluator(LCD_RS)
+            wins.append((ev_.eval(nd["lo"]), ev_.eval(nd["hi"]) - (0 if nd.get("closed") else 1)))
+    ctx.need(len(wins) >= 2, "LCD overlay windows not found")
+    log: list = []
+
+    class Pipe(_HostObj):
+        def apply(self, op: Any) -> None:
+            cmd = op.kwargs.get("command") if hasattr(op, "kwargs") else op
+            log.append(("apply", repr(cmd)))
+
+    class Chip(_HostObj):
+        def read_data(self) -> Any:
+            log.append(("read_data", self.idx))
+            return ("data", self.idx)
+
+        def read_instruction_status(self) -> Any:
+            log.append(("status", self.idx))
+            return ("status", self.idx)
+
+    def run_(name: str, args: dict) -> tuple:
+        me = ClassHost(py, mod, cls, pipeline=Pipe(), chips=[Chip(idx=0), Chip(idx=1)], cs_both_count=0, cs_left_count=0, cs_right_count=0, _cpu=None)
+        log.clear()
+        try:
+            ret = me._sa_call(cls, cls.methods[name], (), args)
+        except NotConst as e:
+            raise AnalysisError(f"HD61202Controller.{name}({args.get('address'):#x}) left the evaluable fragment: {e}")
+        return ret, list(log)
+    n = 0
+    seen = set()
+    for lo_, hi_ in sorted(wins):
+        span = hi_ - lo_ + 1
+        mids = sorted({0, 0x10, span // 3 & ~0xF, span // 2 & ~0xF, span - 0x10})
+        for mid in mids:
+            for nib in range(16):
+                addr, canon = lo_ + mid + nib, lo_ + nib
+                if addr > hi_ or addr == canon:
+                    continue
+                for name, args in (("write", {"value": 0x3F, "cpu_pc": 0}), ("write", {"value": 0x41, "cpu_pc": 0}), ("read", {"cpu_pc": 0})):
+                    n += 1
+                    got = run_(name, {"address": addr, **args})
+                    want = run_(name, {"address": canon, **args})
+                    if got != want and (name, lo_) not in seen:
+                        seen.add((name, lo_))
+                        ctx.violation("C15.1/front-door-mirror", key_of(CW_PY, f"HD61202Controller.{name}", f"window {lo_:#06x}: mirrored address treated differently"),
+                                      f"HD61202Controller.{name} at {addr:#06x} does {got[1] or 'nothing'} (returns {got[0]!r}) but at the canonical {canon:#06x} it does {want[1] or 'nothing'} (returns {want[0]!r}): "
+                                      f"the whole window {lo_:#06x}-{hi_:#06x} is routed to the controller and only the low nibble is decoded, so the access is dropped", f"{CW_PY}:{cls.methods[name].lineno}")
+    ctx.instance("C15.1/front-door-mirror", "mirrored LCD window addresses x {instruction write, data write, read}: controller front door behaves like window base + low nibble", n, 300)
